@@ -49,7 +49,7 @@ func init() {
 		NonTrivial: func(o *Outcome) bool {
 			return o.Hist.FaultFired["store:cut-effective"]+o.Hist.FaultFired["store:flip"]+o.Hist.FaultFired["store:garbage"] > 0
 		},
-		Rule:         "records captured from the run itself (hit records with identity / gzip+br variants, multi-valued and non-ASCII headers, empty and large bodies; hit-for-pass records) are fed back through the real lookup path after the entry was evicted: mode cut = the store returns the record cut at offset k for every k of a contiguous window (thorough tier: every offset 0..len-1 of the record, i.e. exhaustive per record), mode flip = seeded single bit flips, mode garbage = random bytes of the record's length, mode zerotail = the last 1..64 bytes read back as zeros (the other shape of a torn write). Oracle: no panic, no stuck request, bytes allocated during the request <= 64 x record length + 4 MiB; every truncated record is a miss (the request reaches the origin and is answered correctly) and the key neither becomes a permanent error nor an immortal entry (final probe after the lifetime reaches the origin). The algebraic Bytes/FromBytes round trip over arbitrary structures is input testing and not claimed. non-trivial = at least one effective corruption was delivered; distinct = distinct history hash",
+		Rule:         "records captured from the run itself (hit records with identity / gzip+br variants, multi-valued and non-ASCII headers, empty and large bodies; hit-for-pass records) are fed back through the real lookup path after the entry was evicted: mode cut = the store returns the record cut at offset k for every k of a contiguous window (thorough tier: every offset 0..len-1 of the record, i.e. exhaustive per record), mode flip = seeded single bit flips, mode garbage = random bytes of the record's length, mode zerotail = the last 1..64 bytes read back as zeros (the other shape of a torn write). Oracle: no panic, no stuck request, bytes allocated during the request <= 64 x record length + 32 MiB (the allowance covers the fetch after the miss refilling the pooled gzip / brotli writers); every truncated record is a miss (the request reaches the origin and is answered correctly) and the key neither becomes a permanent error nor an immortal entry (final probe after the lifetime reaches the origin). The algebraic Bytes/FromBytes round trip over arbitrary structures is input testing and not claimed. non-trivial = at least one effective corruption was delivered; distinct = distinct history hash",
 		ExpectProbes: []string{"cut-record-checked", "flip-record-checked", "garbage-record-checked", "zerotail-record-checked", "final-probe-ok", "record-with-compressed-variants", "hit-for-pass-record"},
 	})
 	register(&Profile{
@@ -346,7 +346,13 @@ func oracleC09(o *Outcome) []Violation {
 				"client op %d %s: store returned a record damaged by %q (len %d of %d) and the handler panicked: %s", r.Op, r.Key, fault, s.OutLen, s.FullLen, r.Res.PanicVal))
 			continue
 		}
-		if r.Res != nil && r.Res.AllocBytes > int64(64*max(s.OutLen, s.FullLen)+4<<20) {
+		if r.Res != nil {
+			o.Hist.Probes[fmt.Sprintf("alloc-MB-while-handling-damaged-record:%d", r.Res.AllocBytes>>20)]++
+		}
+		// (the allowance covers the fetch that follows a miss when the garbage collector has just
+		// emptied the pooled gzip / brotli writers: 2-3 MB in a tenth of the requests, 5 MB seen once
+		// in several million; an allocation sized from a damaged length field is far beyond it)
+		if r.Res != nil && r.Res.AllocBytes > int64(64*max(s.OutLen, s.FullLen)+32<<20) {
 			out = append(out, violation("C09", "allocation-on-bad-record", "decoding a damaged record allocated far more than its size",
 				"client op %d %s: %d bytes allocated while handling a %d byte record damaged by %q", r.Op, r.Key, r.Res.AllocBytes, s.OutLen, fault))
 		}
